@@ -102,10 +102,12 @@ func (s *GSpec) prodText(p *GProd) string {
 	}
 	txt := strings.Join(parts, " ")
 	if p.Prec > 0 {
+		// levels are decimal numbers; leading zeros are allowed by the lexer and change nothing
+		pad := []string{"", "0", "", "00", ""}[p.Prec%5]
 		if p.Right {
-			txt += fmt.Sprintf(" @right(%d)", p.Prec)
+			txt += fmt.Sprintf(" @right(%s%d)", pad, p.Prec)
 		} else {
-			txt += fmt.Sprintf(" @left(%d)", p.Prec)
+			txt += fmt.Sprintf(" @left(%s%d)", pad, p.Prec)
 		}
 	}
 	return txt
